@@ -894,7 +894,7 @@ func (e *Env) designator(x ast.Expr) []ModLoc {
 	for i := range locs {
 		if locs[i].Guard == "" {
 			locs[i].Guard = g
-		} else {
+		} else if g != "true" {
 			locs[i].Guard = and(locs[i].Guard, g)
 		}
 	}
@@ -1065,17 +1065,32 @@ func (e *Env) designator0(x ast.Expr) []ModLoc {
 			}
 			n := *e
 			n.vars = map[string]Val{}
+			// guards of the argument expressions apply to every location of the set;
+			// each designator of the set gets its own guard on top
+			var argGuards []T
+			ae := *e
+			ae.guard = &argGuards
 			for i, a := range x.Args {
-				n.vars[ms.Params[i]] = e.eval(a)
+				n.vars[ms.Params[i]] = ae.eval(a)
 			}
 			n.fr = nil
 			n.params = nil
+			n.guard = nil
 			if p := e.c.P.Pkgs[mpkg]; p != nil {
 				n.pkg = p.Pkg
 			}
 			var out []ModLoc
 			for _, d := range ms.Exprs {
-				out = append(out, n.designator(d)...)
+				for _, l := range n.designator(d) {
+					if len(argGuards) > 0 {
+						if l.Guard == "" {
+							l.Guard = and(argGuards...)
+						} else {
+							l.Guard = and(l.Guard, and(argGuards...))
+						}
+					}
+					out = append(out, l)
+				}
 			}
 			return out
 		}
